@@ -20,7 +20,7 @@ import (
 	"github.com/emirpasic/gods/v2/containers"
 )
 
-const callTimeout = 2 * time.Second
+const callTimeout = 10 * time.Second // generous: a loaded machine must not look like non-termination
 
 var (
 	byteSliceType = reflect.TypeOf([]byte{})
